@@ -494,7 +494,7 @@ fn main() {
         run.merge(t);
     }
     // numbers beyond the 18-digit domain of the comparison rule, restricted to pairs whose order
-    // every faithful reading gives alike: at most one of the two exceeds i64::MAX (so saturating
+    // every faithful reading gives alike: at most one of the two reaches i64::MAX (so saturating
     // at any width >= 64 bits, or exact arithmetic, agree).  d x 10^k and neighbours, 17..24 digits.
     {
         let mut nums: Vec<String> = vec![];
@@ -524,7 +524,7 @@ fn main() {
         nums.sort();
         nums.dedup();
         let strip = |n: &str| -> String { let t = n.trim_start_matches('0'); if t.is_empty() { "0".to_string() } else { t.to_string() } };
-        let big = |n: &str| { let d = n.bytes().all(|b| b.is_ascii_digit()); let n = strip(n); d && (n.len() > 19 || (n.len() == 19 && n.as_str() > "9223372036854775807")) };
+        let big = |n: &str| { let d = n.bytes().all(|b| b.is_ascii_digit()); let n = strip(n); d && (n.len() > 19 || (n.len() == 19 && n.as_str() >= "9223372036854775807")) };
         let p = Pattern::new("p-*").unwrap_or_else(|e| run.fault(&format!("p-*: {}", e)));
         run.bound(format!("large numbers: {} numbers of 17..26 digits (d x 10^k and neighbours), all pairs in which at most one exceeds i64::MAX, as a version component, both argument orders", nums.len()));
         let idx: Vec<usize> = (0..nums.len()).collect();
